@@ -8,18 +8,18 @@ namespace GoMC.Lemmas.Chat
 open GoMC GoMC.Spec GoMC.Model GoMC.Model.Chat GoMC.Lemmas
 
 /-- `chat.Type` as a field codec over the codec of `Message` -/
-def typeC (msgC : Codec Msg) : Codec ChatType := ⟨typeEnc msgC, typeDec msgC, ⟨0, msgC.zero, none⟩⟩
+def typeC {α : Type} (msgC : Codec α) : Codec (ChatTypeOf α) := ⟨typeEnc msgC, typeDec msgC, ⟨0, msgC.zero, none⟩⟩
 
-def typeDom (dom : Msg → Prop) (t : ChatType) : Prop := dom t.sender ∧ ∀ m, t.target = some m → dom m
+def typeDom {α : Type} (dom : α → Prop) (t : ChatTypeOf α) : Prop := dom t.sender ∧ ∀ m, t.target = some m → dom m
 
-def typeEqv (eqv : Msg → Msg → Prop) (d v : ChatType) : Prop :=
+def typeEqv {α : Type} (eqv : α → α → Prop) (d v : ChatTypeOf α) : Prop :=
   d.id = v.id ∧ eqv d.sender v.sender ∧
     match d.target, v.target with
     | none, none => True
     | some a, some b => eqv a b
     | _, _ => False
 
-theorem rt_type {msgC : Codec Msg} {dom eqv} (hc : RT msgC dom eqv) : RT (typeC msgC) (typeDom dom) (typeEqv eqv) := by
+theorem rt_type {α : Type} {msgC : Codec α} {dom eqv} (hc : RT msgC dom eqv) : RT (typeC msgC) (typeDom dom) (typeEqv eqv) := by
   intro v d s rest hv hs
   obtain ⟨id, sender, target⟩ := v
   obtain ⟨hds, hdt⟩ := hv
